@@ -133,7 +133,7 @@ class CHECK(Check):
         seen = set()
         for d, m in self.models.items():
             f = self.fams[d]
-            sents = set(f.s0_pairs()) | set(f.s0_edges()) | set(f.s0_triples())
+            sents = set(f.s0_pairs()) | set(f.s0_edges()) | set(f.s0_triples()) | set(f.s0_sibling_pairs())
             if self.tier == 'thorough':
                 sents |= set(gsx.Families(m, 2).s0_edges()) | set(f.s0_pairs(table=1)) | set(f.s0_triples(table=1))
             for s in sorted(sents):
@@ -229,6 +229,12 @@ class CHECK(Check):
         for node, _, _ in visits:
             if id(node) not in known_ids and isinstance(node, ASTNode):
                 res.violation(f'visits-foreign-node|{type(node).__name__}', f'{text!r}: callback received a node that is not part of the tree: {node!r}')
+            elif node is None:
+                res.count('visitor_called_with_None_for_an_absent_slot')     # tolerated: no node is missed or visited twice by it
+            elif not isinstance(node, ASTNode) and type(node).__name__ != 'TableColumn':
+                # the visitor is for tables, expressions and nested queries: a raw python value (the text inside an INTERVAL,
+                # a list, None ...) is none of them
+                res.violation(f'visits-a-non-node|{type(node).__name__}', f'{text!r}: callback received {node!r} ({type(node).__name__}), which is not a node of the statement')
         # (2) order: numbered leaves increasing; ancestors before descendants
         seq = []
         pos = {}
